@@ -158,7 +158,10 @@ fn main() -> Result<()> {
             "# {} {}\n# {}\n",
             env!("CARGO_PKG_NAME"),
             env!("CARGO_PKG_VERSION"),
-            std::env::args().collect::<Vec<_>>().join(" ")
+            std::env::args_os()
+                .map(|arg| arg.to_string_lossy().into_owned())
+                .collect::<Vec<_>>()
+                .join(" ")
         )
         .as_bytes(),
     )
